@@ -479,6 +479,20 @@ class MicrogridApiSource:
             _logger.error("Unknown component ID: %d in request %s", comp_id, request)
             return
 
+        try:
+            self._get_data_extraction_method(category, request.metric_id)
+        except (KeyError, ValueError):
+            # Registering a metric that the component can't provide would make the
+            # streaming task of the component fail for all its metrics.
+            _logger.error(
+                "Unsupported metric %s for component ID %d (%s) in request %s",
+                request.metric_id,
+                comp_id,
+                category.name,
+                request,
+            )
+            return
+
         self._req_streaming_metrics.setdefault(comp_id, {}).setdefault(
             request.metric_id, []
         )
